@@ -130,10 +130,19 @@ def r1_spec_tables(ctx, F):
             # guards that compare the operation's payload with the object state must agree in polarity
             def payload_state_tests(b):
                 out = []
-                for c in b.calls_to('PartialEq::eq', 'PartialEq::ne'):
+                for c in b.calls_to('PartialEq::eq', 'PartialEq::ne', 'cmp::impls::eq', 'cmp::impls::ne'):
                     vs = [noref(b.trace(resolve_arg(b, b.val(a)), ('Option::as_ref', 'Option::as_deref', 'Option::as_mut',
                                                                   'Deref::deref'))) for a in c.args[:2]]
-                    roots = sorted(v.key for v in vs if v.kind == 'arg')
+                    # an operand may arrive through a join (`current` = the existing or the freshly stored value)
+                    from taint import vals_of as _vo
+                    vs2 = []
+                    for v in vs:
+                        if v.kind == 'local':
+                            alt = set(noref(x) for x in _vo(b, v))
+                            if len(alt) == 1:
+                                v = next(iter(alt))
+                        vs2.append(v)
+                    roots = sorted(v.key for v in vs2 if v.kind == 'arg')
                     if roots == [1, 2]:
                         eq = c.short.endswith('::eq') or c.dshort.endswith('::eq')
                         out.append((b.branch(c, True) if eq else b.branch(c, False),
@@ -168,7 +177,10 @@ def r1_spec_tables(ctx, F):
                     return out
 
                 def not_edges(sws, label):
-                    return [e for sw in sws for e in sw.edges_not(label)]
+                    # (several labels may share a target block - `WriteOk | WriteFail => false`: an edge that the
+                    # wanted label also takes is not cut)
+                    keep = set(e for sw in sws for e in sw.edges_for(label))
+                    return [e for sw in sws for e in sw.edges_not(label) if e not in keep]
 
                 def shape_calls_cut(b, shape):
                     """the same question asked with `self.0.is_none()` / `is_some()`: the edges that contradict `shape`"""
@@ -191,7 +203,8 @@ def r1_spec_tables(ctx, F):
                         cut = not_edges(op_sw_i, o) + (not_edges(st_i, sh) + shape_calls_cut(inv, sh) if sh else [])
                         for (eq_e, ne_e) in t_inv:
                             cut += ne_e if eqv else eq_e
-                        blocks = inv.reach([0], cut_edges=cut)
+                        from common import reach_with_flags as _rwf
+                        blocks = _rwf(inv, [0], cut_edges=cut)
                         got = set(st['rv']['variant'] for (i, si, st) in inv.assigns(
                             lambda st: st['rv']['k'] == 'agg' and st['rv'].get('adt') == retadt) if i in blocks)
                         # a cell that cannot occur (payload == state while the object holds nothing) is skipped
@@ -202,7 +215,8 @@ def r1_spec_tables(ctx, F):
                                 (not_edges(st_v, sh) + shape_calls_cut(ivs, sh) if sh else [])
                             for (eq_e, ne_e) in t_ivs:
                                 cutv += ne_e if eqv else eq_e
-                            live = ivs.reach([0], cut_edges=cutv)
+                            from common import reach_with_flags
+                            live = reach_with_flags(ivs, [0], cut_edges=cutv)
                             # a comparison whose result is returned (not branched on) has the assumed answer
                             assumed = dict((bb_, (eqv if is_eq else not eqv)) for ((pth, bb_), is_eq) in answers.items()
                                            if pth == ivs.path)
@@ -409,6 +423,11 @@ def r3_one_outstanding(ctx, F):
                 if rel_ not in ('eq', 'ne') or b.call_at(bb_) is not None and b.call_at(bb_) in guards:
                     continue
                 vs_ = [noref(resolve_arg(b, x_)), noref(resolve_arg(b, y_))]
+                # (the binding of an or-pattern `PutOk(id) | PutFail(id)` has one definition per alternative)
+                from taint import vals_of as _vo2
+                vs_ = [v if v.kind != 'local' else
+                       (lambda alt: next(iter(alt)) if alt and all(a_.kind == 'arg' and a_.key == 5 for a_ in alt) else v)(
+                           set(noref(a_) for a_ in _vo2(b, v))) for v in vs_]
                 if any(v.kind == 'arg' and v.key == 5 for v in vs_) and any('.awaiting' in v.fields() for v in vs_):
                     prim_guards.append(te_ if rel_ == 'eq' else fe_)
             if not guards and not prim_guards:
